@@ -562,7 +562,7 @@ def rule_l2(chk: Check, ix: Index):
             # what the path knows about the step's outcome: the test it sits in, or a later test of the local it was bound to
             step_truth = pth[step][2] if pth[step][0] == "cond" else None
             if pth[step][0] == "do":
-                mm = _re.match(r"^([A-Za-z_]\w*) = \(?yield from handle_fstring_progs\(", pth[step][1])
+                mm = _re.match(r"^([A-Za-z_]\w*) = (?:\(?yield from handle_fstring_progs\(|state\.match\(state\.end_progs\[-1\]\.pattern)", pth[step][1])
                 if mm:
                     for x in tail:
                         if x[0] == "cond" and x[1] in (mm.group(1), f"not {mm.group(1)}"):
@@ -605,8 +605,9 @@ def rule_l2(chk: Check, ix: Index):
             for x in pth:
                 if x[0] == "cond":
                     allc.setdefault(x[1], set()).add(x[2])
-            kinds = ["state.end_progs[-1].mode is None"] + [f"state.{m}()" for m in mode_predicates]
-            if left_open and all(allc.get(k) == {False} for k in kinds):
+            kinds = [f"state.{m}()" for m in mode_predicates]
+            plain_tests = [v for k, v in allc.items() if k.endswith(".mode is None")]     # through whatever name the top entry has
+            if left_open and plain_tests and all(v == {False} for v in plain_tests) and all(allc.get(k) == {False} for k in kinds):
                 left_open = False
             if left_open and not pre_colon:
                 chk.units["left_open_path"] = [(x[1][:40], x[2]) for x in pth if x[0] == "cond"]
